@@ -549,7 +549,7 @@ func (o Otto) Call(source string, this interface{}, argumentList ...interface{})
 
 	if !construct && this == nil {
 		program, err := o.runtime.cmplParse("", source+"()", nil)
-		if err == nil && len(program.body) > 0 {
+		if err == nil && len(program.body) == 1 {
 			if node, ok := program.body[0].(*nodeExpressionStatement); ok {
 				if node, ok2 := node.expression.(*nodeCallExpression); ok2 {
 					var value Value
